@@ -5,6 +5,7 @@ CONSTANTS
  DevSlashOnly = FALSE
  DevDotOnly = FALSE
  DevAllowColon = FALSE
+ DevDefaultPartsSkipsNameCheck = FALSE
 INIT Init
 NEXT Next
 INVARIANTS C22_Rejects
